@@ -25,11 +25,13 @@ def strip_ids(row): return {k: v for k, v in row.items() if k not in ("environme
 def experiment_level(ctx, nexp):
     rng = ctx.rng
     specs = [dict(envs=[["lin", 6, 3], ["group", 0, 0]], lrns=[["count", 1], ["kwargs"]], vals=[["seq"]], groups=[dict(n=6, seed=5, prefix=None, fan=1, batch=2)], triples=[[0, 0, 0], [1, 0, 0], [0, 1, 0], [1, 1, 0]]),
-             dict(envs=[["lin", 6, 3]], lrns=[["count", 2]], vals=[["seq"], ["seq2", 3]], groups=[], triples=[[0, 0, 0], [0, 0, 1]])]
+             dict(envs=[["lin", 6, 3]], lrns=[["count", 2]], vals=[["seq"], ["seq2", 3]], groups=[], triples=[[0, 0, 0], [0, 0, 1]]),
+             dict(envs=[["lin", 6, 3], ["lin", 6, 4]], lrns=[["count", 1], ["failing", "learn", 2]], vals=[["seq"]], groups=[], triples=[[0, 0, 0], [0, 1, 0], [1, 0, 0], [1, 1, 0]]),
+             dict(envs=[["lin", 5, 8], ["lin", 5, 9]], lrns=[["failing", "predict", 3], ["kwargs"]], vals=[["seq"]], groups=[], triples=[[0, 0, 0], [1, 1, 0], [1, 0, 0], [0, 1, 0]])]
     for _ in range(nexp): specs.append(expcore.gen_spec(rng, failures=True, batched=True))
     jobs, index = [], []
     for si, spec in enumerate(specs):
-        conf = rng.choice([(1, 0, 0), (1, 0, 0), (1, 0, 2), (2, 0, 0)])
+        conf = (1, 0, 0) if si < 4 else rng.choice([(1, 0, 0), (1, 0, 0), (1, 0, 2), (2, 0, 0)])
         jobs.append(dict(spec=spec, p=conf[0], mc=conf[1], mt=conf[2], seed=1)); index.append((si, None, conf))
         for ti in range(len(spec["triples"])):
             jobs.append(dict(spec=spec, p=1, mc=1, mt=0, seed=1, only=ti)); index.append((si, ti, (1, 1, 0)))
